@@ -239,6 +239,27 @@ def hexVal : Str → List Nat
   | a :: b :: r => (16 * hexNib a + hexNib b) :: hexVal r
   | _ => []
 
+/-! ### float / double (§3.3.4, §3.3.5): `(\+|-)?([0-9]+(\.[0-9]*)?|\.[0-9]+)([Ee](\+|-)?[0-9]+)?|(\+|-)?INF|NaN` -/
+
+def notExpChar (c : Char) : Bool := c != 'e' && c != 'E'
+
+/-- the exponent part: absent, or `[Ee](\+|-)?[0-9]+` -/
+def expLex : Str → Bool
+  | [] => true
+  | _ :: '+' :: r => nonEmptyDigits r
+  | _ :: '-' :: r => nonEmptyDigits r
+  | _ :: r => nonEmptyDigits r
+
+/-- an unsigned numeral: mantissa up to the first `e`/`E`, then the exponent part -/
+def numeralLex (r : Str) : Bool := decBodyLex (r.takeWhile notExpChar) && expLex (r.dropWhile notExpChar)
+
+def doubleLex (s : Str) : Bool :=
+  s == ['N', 'a', 'N'] ||
+  (match s with
+   | '+' :: r => r == ['I', 'N', 'F'] || numeralLex r
+   | '-' :: r => r == ['I', 'N', 'F'] || numeralLex r
+   | r => r == ['I', 'N', 'F'] || numeralLex r)
+
 /-! ### base64Binary (§3.3.16): `((B64 B64 B64 B64)* (B64 B64 B64 B64char | B64 B64 B16 '=' | B64 B04 '=' #x20? '='))?`
     with `B64 ::= B64char #x20?` — i.e. the canonical language without spaces, and a single space allowed after
     every character but the last -/
